@@ -544,6 +544,9 @@ func propC17(cx *sim.Ctx) {
 		return sen.Match(append([]byte(nil), in...), cb, c.Targets...)
 	})
 	vsRef(senB)
+	// the *String variants are their []byte siblings
+	vsBytes(ojB, runMatch("oj.MatchString", nil, func(cb func(jp.Expr, any)) error { return oj.MatchString(string(in), cb, c.Targets...) }))
+	vsBytes(senB, runMatch("sen.MatchString", nil, func(cb func(jp.Expr, any)) error { return sen.MatchString(string(in), cb, c.Targets...) }))
 	scheds := c.Scheds
 	if c.Sweep {
 		scheds = append(append([]*sim.Schedule(nil), scheds...), sweepSchedules(len(in))...)
